@@ -129,3 +129,30 @@ package scheduler
 //@ callreq send resp: a1 == slot
 //@ loop 1 invariant ncalls("send resp") == 0 || slot == lastSent.Next()
 
+// Every ticked slot is announced and scheduled exactly once, in that order, as the slot that ticked.
+//@ func (s *Scheduler) Run
+//@ props C15
+//@ callreq s.emitCoreSlot: a2 == slot && ncalls(s.emitCoreSlot) == ncalls(s.scheduleSlot)
+//@ callreq s.scheduleSlot: a2 == slot && ncalls(s.scheduleSlot) + 1 == ncalls(s.emitCoreSlot)
+//@ loop 1 invariant ncalls(s.emitCoreSlot) == ncalls(s.scheduleSlot)
+
+//@ func (s *Scheduler) emitCoreSlot$1
+//@ props C15
+//@ callreq sub: a1 == ctx && a2 == slot
+
+// What is handed out is a clone of the definition set stored for exactly the requested duty.
+//@ func (s *Scheduler) GetDutyDefinition
+//@ props C15 C18
+//@ callreq s.getDutyDefinitionSet: a1 == duty
+//@ callreq defSet.Clone: true
+//@ ensures r1 == nil ==> ncalls(s.getDutyDefinitionSet) == 1 && ncalls(defSet.Clone) == 1
+//@ ensures r1 == nil ==> duty.Type != core.DutyBuilderProposer
+
+// Reorg handling (when enabled): the duties of the resolved epoch are dropped and the epoch is marked unresolved, so the
+// next slot resolves it afresh; an event for the resolved epoch or a later one changes nothing.
+//@ func (s *Scheduler) HandleChainReorgEvent
+//@ props C15
+//@ callreq s.trimDuties: a1 == resolvedEpoch && uint64(epoch) < resolvedEpoch
+//@ callreq s.setResolvedEpoch: a1 == math.MaxInt64 && ncalls(s.trimDuties) == 1
+//@ ensures ncalls(s.trimDuties) == ncalls(s.setResolvedEpoch)
+
